@@ -11,6 +11,15 @@ Every run also visits the EDGE FREQUENCIES of the analysis (`edge_stream`): the 
 bmin = 0 / 0 < bmin < 1, explicit plans handed in as a callable scheduler), sub-first-bin frequencies, and Nyquist (f = fs/2 and just below), with
 records whose DC content is real (non-zero mean / red noise, order = -1 as well as 0..2) and partially coherent, so that a frequency-dependent
 scaling of only some of the densities is seen by sub-claims 1, 3, 4, 5; the synthetic results carry f = 0 and f = fs/2 bins too.
+Every run also sweeps the OPTIONS (`option_sweep`): each of the 12 (backend in numpy / numba / auto) x (order -1..2) rows of the kernel dispatch, through
+a spectrum entry point AND a single-bin entry point (SpectrumAnalyzer.compute / compute_single_bin(L=) / compute_single_bin(fres=), speckit.compute_spectrum /
+lpsd / compute_single_bin), with library and user schedulers (fixed-length Welch plan, a plan that returns to a segment length: L1, L2, L1), the overlap
+requested as "default" / a float / exactly 0.0 / so high that (1 - olap) * L < 1, Kaiser / hann / callable windows, 2xN / Nx2 / list / non-contiguous
+inputs, on records with different offsets, linear and quadratic drifts in the two channels.  [x,y], [y,x], x alone and y alone go through the SAME backend
+and order, so sub-claim 4 compares the auto kernel with the cross kernel of one dispatch row.  Added consistency demands on those cases: a repeated
+analysis (same analyzer / same input object) is bit-identical and leaves the input untouched; the backends agree within twice the kernels' budget.
+`size_stream` probes segment counts, record lengths and grid sizes around every integer constant of the current source and far beyond the generators
+(70 001 and 1 100 003 samples, 65 539 segments, 1003 bins), segments placed up to the last block of the record.
 This file also holds the helpers shared with C10 and C11 (pair generator, option cycling, tolerances, replay plumbing).
 """
 from __future__ import annotations
@@ -53,7 +62,14 @@ RULE = ("cases = (pair kind: independent / mixed kinds / identical / scaled y=-3
         "edge-frequency stream on every run: DC-carrying partially coherent pairs (small mean / large mean / red noise / y=-3x with mean) x order "
         "(-1 on every other case) x {library scheduler with bmin = 0 or in (0,1); explicit plan (callable scheduler) with bins at f = 0 (K >= 2), "
         "below the first bin, mid-band, just below Nyquist and at fs/2; compute_single_bin at freq = 0 and at fs/2 / near it / below fs/N}; "
-        "synthetic SpectrumResults with f = 0 and f = fs/2 bins; the number of DC bins with real power and coherence in (0.25, 1) is measured")
+        "synthetic SpectrumResults with f = 0 and f = fs/2 bins; the number of DC bins with real power and coherence in (0.25, 1) is measured; "
+        "option sweep on every run: (backend numpy|numba|auto) x (order -1..2) x (spectrum entry | single-bin entry) all 24 rows per round, 6 rounds "
+        "(round 0: olap = 0.0 and L | N, round 1: K = 1), cycling 7 entry points, 6 schedulers (4 library, Welch callable, revisiting callable), 4 overlap "
+        "forms, 5 windows (2 callables), 4 layouts with seed-dependent rotations; records = offset + linear + quadratic drift (different per channel) + "
+        "delayed partially coherent noise | y = -3x | independent; each row analysed as [x,y], [y,x], x, y, then repeated (same analyzer, other entry "
+        "point in between, new analyzer on the same object, second module call) and compared across backends; K = 1 / K = 2 / K >= 3 and odd / even L "
+        "per (backend, order) are measured; size stream: K, N, nf at c-1, c, c+1, c+17, 2c+3 for every constant c mined from core.py / analysis.py, "
+        "N = 70001 on all 12 dispatch pairs, 65537, 131075, 1100003, nf = 1003")
 
 U = _an.U
 ORDERS = [-1, 0, 1, 2]
@@ -61,7 +77,7 @@ WINS: List[Tuple[str, Optional[float]]] = [("kaiser", 60.0), ("hann", None), ("k
 PAIR_KINDS = ["indep", "mixed", "identical", "scaled", "delayed", "weak", "strong", "zero-x", "zero-y", "const-x", "const-y",
               "zero-zero", "const-const", "zero-const"]
 DC_KINDS = ["dc-partial", "dc-offset", "dc-red", "dc-scaled"]     # records whose DC bin carries real power (edge_stream)
-DEP_KINDS = ("identical", "scaled", "dc-scaled")
+DEP_KINDS = ("identical", "scaled", "dc-scaled", "tr-scaled")
 LIB_BMIN0 = ["ltf", "vectorized_ltf", "new_ltf"]                   # schedulers that honour bmin < 1 (lpsd_plan forces bmin = 1)
 NAMES = ["Gxx", "Gyy", "Gxy", "Gyx", "coh", "ccoh", "Hxy", "Hyx", "GyyCx", "GyyRx", "GyySx"]
 MAX_VIOL = 8
@@ -73,6 +89,38 @@ def quiet() -> None:
     for name in ("speckit", "speckit.analysis", "speckit.core", "speckit.schedulers", "root"):
         logging.getLogger(name).setLevel(logging.CRITICAL + 10)
     logging.getLogger().setLevel(logging.CRITICAL + 10)
+
+
+class blas_threads:
+    """best effort, execution environment only: pin the OpenBLAS pools loaded in this process to `n` threads while the oracle runs and restore them
+    afterwards.  On an oversubscribed machine every NumPy-kernel matrix product above OpenBLAS's threading threshold (K * L > ~8000) costs ~0.1 s of
+    thread spinning instead of ~30 us, which would decide how many cases fit into the time budget; the numbers stay within the same budgets."""
+    def __init__(self, n: int = 1):
+        self.n, self.saved = int(n), []
+
+    def __enter__(self):
+        try:
+            import ctypes
+            paths = sorted({ln.split()[-1] for ln in open("/proc/self/maps") if "openblas" in ln and ".so" in ln})
+            for path in paths:
+                lib = ctypes.CDLL(path)
+                for pre in ("scipy_openblas_", "openblas_"):
+                    for suf in ("64_", ""):
+                        get, put = getattr(lib, pre + "get_num_threads" + suf, None), getattr(lib, pre + "set_num_threads" + suf, None)
+                        if get is not None and put is not None:
+                            self.saved.append((put, int(get())))
+                            put(self.n)
+        except Exception:
+            pass
+        return self
+
+    def __exit__(self, *a):
+        for put, old in self.saved:
+            try:
+                put(old)
+            except Exception:
+                pass
+        return False
 
 
 def within(key: str, val: float, tol: float) -> bool:
@@ -264,11 +312,12 @@ def all_finite(a) -> bool:
 
 
 # ---------------------------------------------------------------- the predicate
-def check_results(P: C.Part, r, rs, rx, ry, x, y, fs, opts, kind: str, where: str, rp: Dict[str, Any]) -> None:
-    """r = [x,y], rs = [y,x], rx = x alone, ry = y alone (same options, same entry point)"""
+def check_results(P: C.Part, r, rs, rx, ry, x, y, fs, opts, kind: str, where: str, rp: Dict[str, Any], wc: Optional[WinCache] = None) -> None:
+    """r = [x,y], rs = [y,x], rx = x alone, ry = y alone (same options, same entry point); `wc` = the window the analyses were asked to use
+    when `opts["win"]` is only a label of it (callable windows of the option sweep)"""
     order = int(opts["order"])
     nf = len(r.f)
-    B = budgets(r, x, y, fs, opts)
+    B = budgets(r, x, y, fs, opts, wc)
     K = B["K"]
     epsK = 32.0 * (K + 4.0) * U
     XX, YY, XY = np.asarray(r.XX), np.asarray(r.YY), np.asarray(r.XY)
@@ -504,6 +553,515 @@ def edge_stream(P: C.Part, ctx, rng: np.random.Generator, n: int) -> None:
                    f"{P.histogram.get('edge-bin DC with power', 0)} DC bins with real power; {P.histogram.get('edge-bin Nyquist with power', 0)} at Nyquist")
 
 
+# ---------------------------------------------------------------- Family O: ONE option generator over dispatch x entry point x scheduler x overlap x window x layout
+# Every run visits every (backend, order) pair of the kernel dispatch, through a spectrum entry point AND through a single-bin entry point (each has
+# its own 18-way dispatch), with records that carry an offset, a linear and a quadratic drift (different in the two channels), a delayed partially
+# coherent coupling (XY has a phase) or exact dependence y = -3x; the remaining options are cycled by the case index with per-run rotations drawn from
+# the seed.  Each case is analysed as [x,y], [y,x], x alone, y alone BY THE SAME backend and order (so the "alone vs pair" clause compares the auto
+# kernel with the cross kernel of one dispatch row) and goes through the predicates of `check_results`; on top of that
+#   (iii) repeat:  second call on the same analyzer, another entry point in between, a new analyzer on the SAME input object, a second module-level
+#                  call on the same object: results bit-identical (same code path, same numbers in), input object untouched;
+#   (iv)  backends: numpy / numba / auto on identical options give the same plan and densities within TWICE the kernels' forward budget
+#                  (each is within one budget of the exact value: _an.bin_tol, the model of C01) — same form as the swap predicates above.
+SW_BACKENDS = ["numpy", "numba", "auto"]
+SW_SPEC_ENTRIES = ["an.compute", "compute_spectrum", "lpsd"]
+SW_BIN_ENTRIES = ["an.single:L", "mod.single:fres", "mod.single:L", "an.single:fres"]
+SW_SCHEDS = ["welch", "lpsd", "revisit", "ltf", "vectorized_ltf", "new_ltf"]
+SW_WINS: List[Tuple[str, Optional[float]]] = [("kaiser", 60.0), ("hann", None), ("cb:welch", None), ("kaiser", 140.0), ("cb:asym", None)]
+SW_OLAPS = ["default", "float", "zero", "high"]
+SW_LAYOUTS = ["2xN", "Nx2", "list", "view"]
+SW_N = [240, 315, 257, 360, 189, 420]          # composite (L | N happens), odd, prime, even
+SW_KINDS = ["tr-partial", "tr-partial", "tr-scaled", "tr-partial", "tr-indep"]
+SIZE_FILES = ["speckit/core.py", "speckit/analysis.py"]
+
+
+def cb_welch(L):
+    """a user-supplied window (callable): parabolic, strictly positive"""
+    n = np.arange(int(L), dtype=float)
+    return 1.0 - ((n - 0.5 * (L - 1)) / (0.5 * (L + 1))) ** 2
+
+
+def cb_asym(L):
+    """a user-supplied window that is NOT symmetric"""
+    n = np.arange(int(L), dtype=float)
+    return np.sin(np.pi * (n + 0.5) / L) ** 2 * (0.7 + 0.6 * n / L)
+
+
+WIN_FUNCS = {"cb:welch": cb_welch, "cb:asym": cb_asym}
+
+
+def plan_dict(fs: float, f, L, D) -> Dict[str, Any]:
+    f = np.asarray(f, dtype=float)
+    L = np.asarray(L, dtype=np.int64)
+    D = [np.asarray(d, dtype=np.int64) for d in D]
+    K = np.array([len(d) for d in D], dtype=np.int64)
+    r = fs / L
+    O = np.array([0.0 if len(d) < 2 else max(0.0, 1.0 - float(d[1] - d[0]) / float(l)) for d, l in zip(D, L)])
+    return {"f": f, "r": r, "b": f / r, "L": L, "K": K, "navg": K.copy(), "D": D, "O": O}
+
+
+def hop_starts(N: int, L: int, olap: float) -> np.ndarray:
+    hop = max(1, int(math.floor((1.0 - float(olap)) * L)))      # (1 - olap) * L < 1: hop of one sample
+    return np.arange(0, N - L + 1, hop, dtype=np.int64)
+
+
+def make_scheduler(label: str):
+    """user callables as the analyzer accepts them (they receive N, fs, olap, bmin, Lmin, Jdes, Kdes), written down as a label so that a case is
+    JSON-serialisable:  welch:L0[:nf]  one fixed segment length, hop from the requested overlap;  revisit:L1:L2  lengths L1, L2, L1, L2, L1 (a length
+    comes back after a different one: per-L caches are hit);  kseg:L:K:L2  one bin averaged over exactly K segments spread over the record;
+    marks:L,..:m,..  segments at the start, at the end and around the given sample positions"""
+    t = label.split(":")
+    if t[0] == "welch":
+        L0, nf = int(t[1]), (int(t[2]) if len(t) > 2 else 0)
+
+        def welch(**kw):
+            N, fs = int(kw["N"]), float(kw["fs"])
+            L = max(2, min(L0, N))
+            d = hop_starts(N, L, kw["olap"])
+            b = np.linspace(0.5, 0.5 * L - 0.25, nf) if nf else np.unique([v for v in (1.0, 2.0, 3.5, L / 8 + 0.3, L // 4, 0.5 * L - 1.0) if 0 < v < 0.5 * L])
+            return plan_dict(fs, b * fs / L, [L] * len(b), [d] * len(b))
+        return welch
+    if t[0] == "revisit":
+        L1, L2 = int(t[1]), int(t[2])
+
+        def revisit(**kw):
+            N, fs = int(kw["N"]), float(kw["fs"])
+            Ls = [max(2, min(v, N)) for v in (L1, L2, L1, L2, L1)]
+            f = [fs * (0.04 + 0.085 * j + 0.3 / l) for j, l in enumerate(Ls)]
+            return plan_dict(fs, f, Ls, [hop_starts(N, l, kw["olap"]) for l in Ls])
+        return revisit
+    if t[0] == "kseg":
+        L, K, L2 = int(t[1]), int(t[2]), int(t[3])
+
+        def kseg(**kw):
+            N, fs = int(kw["N"]), float(kw["fs"])
+            d = np.floor(np.linspace(0.0, float(N - L), K)).astype(np.int64) if K > 1 else np.array([N - L], dtype=np.int64)
+            return plan_dict(fs, [0.137 * fs, 0.31 * fs], [L, L2], [d, np.array([0, N - L2], dtype=np.int64)])
+        return kseg
+    if t[0] == "marks":
+        Ls, marks = [int(v) for v in t[1].split(",")], [int(v) for v in t[2].split(",") if v]
+
+        def marked(**kw):
+            N, fs = int(kw["N"]), float(kw["fs"])
+            LL, D = [], []
+            for l in Ls:
+                l = max(2, min(l, N))
+                s = {0, N - l}
+                for m in marks:
+                    s |= {min(max(v, 0), N - l) for v in (m - l // 2, m - l, m, m - 1, m + 1 - l)}
+                LL.append(l)
+                D.append(np.array(sorted(s), dtype=np.int64))
+            f = [fs * (0.11 + 0.3 * j / max(1, len(LL) - 1)) for j in range(len(LL))]
+            return plan_dict(fs, f, LL, D)
+        return marked
+    raise ValueError(label)
+
+
+def trend_pair(rec: Dict[str, Any]) -> Tuple[np.ndarray, np.ndarray]:
+    """rec = {"rs": seed, "N": n, "kind": ...}: two channels with DIFFERENT offsets, linear and quadratic drifts and a slow oscillation, unit noise,
+    y coupled to a delayed copy of x's noise (partial coherence with a phase) and of a different scale; regenerated from the recipe (replays stay small)"""
+    g = np.random.default_rng(int(rec["rs"]))
+    N, kind = int(rec["N"]), str(rec["kind"])
+    amp = float(rec.get("amp", 30.0))       # largest trend coefficient in units of the noise (the rounding budgets grow with max|x|^2)
+    u = np.arange(N) / max(1, N - 1)
+
+    def trend():
+        c = [float(g.choice([-1.0, 1.0]) * g.uniform(1.0, amp)) for _ in range(3)]
+        return c[0] + c[1] * u + c[2] * u * u + min(1.0, amp / 10.0) * float(g.uniform(0.5, 3.0)) * np.sin(2 * np.pi * float(g.uniform(0.3, 2.5)) * u + float(g.uniform(0, 6)))
+    n1, n2 = g.standard_normal(N), g.standard_normal(N)
+    c = float(g.uniform(0.3, 0.9))
+    s = float(10 ** g.uniform(-2, 2))
+    d = int(g.choice([1, 2, 5]))
+    x = trend() + n1
+    if kind == "tr-scaled":
+        return x, -3.0 * x
+    if kind == "tr-indep":
+        return x, s * (trend() + n2)
+    return x, s * (trend() + math.sqrt(c) * np.roll(n1, d) + math.sqrt(1.0 - c) * n2)
+
+
+def lay(x: np.ndarray, y: Optional[np.ndarray], layout: str):
+    """the input object handed to the library: 1-D array / list for one channel; 2xN, Nx2, list of two lists, non-contiguous 2xN view for a pair"""
+    if y is None:
+        return [float(v) for v in x] if layout == "list" else np.array(x, dtype=float)
+    if layout == "2xN":
+        return np.vstack([x, y])
+    if layout == "Nx2":
+        return np.ascontiguousarray(np.vstack([x, y]).T)
+    if layout == "list":
+        return [[float(v) for v in x], [float(v) for v in y]]
+    if layout == "view":
+        big = np.full((4, len(x)), 7.25)
+        big[0], big[2] = x, y
+        return big[::2]
+    raise ValueError(layout)
+
+
+def snapshot(data) -> bytes:
+    return np.asarray(data, dtype=float).tobytes()
+
+
+def sw_kwargs(o: Dict[str, Any], single) -> Dict[str, Any]:
+    """the keyword arguments for the library from the JSON-able option set `o` (labels -> callables)"""
+    keys = ("order", "backend", "olap") if single else ("order", "backend", "olap", "Jdes", "Kdes", "bmin", "Lmin")
+    kw = {k: o[k] for k in keys if k in o}
+    kw["win"] = WIN_FUNCS.get(o["win"], o["win"])
+    if o.get("psll") is not None:
+        kw["psll"] = o["psll"]
+    if not single:
+        s = o["scheduler"]
+        kw["scheduler"] = s if s in _an.SCHEDS else make_scheduler(s)
+    return kw
+
+
+def sw_call(entry: str, data, fs: float, kw: Dict[str, Any], single, an=None):
+    import speckit
+    from speckit.analysis import SpectrumAnalyzer
+    with warnings.catch_warnings(), np.errstate(all="ignore"):
+        warnings.simplefilter("ignore")
+        if entry in ("compute_spectrum", "lpsd"):
+            return getattr(speckit, entry)(data, fs, **kw)
+        if entry == "an.compute":
+            return (an if an is not None else SpectrumAnalyzer(data, fs, **kw)).compute()
+        arg = {"L": int(single["L"])} if entry.endswith(":L") else {"fres": float(single["fres"])}
+        if entry.startswith("mod."):
+            return speckit.compute_single_bin(data, fs, float(single["freq"]), **arg, **kw)
+        return (an if an is not None else SpectrumAnalyzer(data, fs, **kw)).compute_single_bin(float(single["freq"]), **arg)
+
+
+RAW = ("f", "L", "XX", "YY", "XY", "S2")
+
+
+def raw_diff(a, b) -> Optional[str]:
+    """name of the first field that is not bit-identical (plan and the numbers every C09 quantity is formed from), or None"""
+    for n in RAW:
+        va, vb = np.asarray(getattr(a, n)), np.asarray(getattr(b, n))
+        if va.shape != vb.shape or not np.array_equal(va, vb, equal_nan=True):
+            return n
+    if len(a.D) != len(b.D) or any(not np.array_equal(np.asarray(p), np.asarray(q)) for p, q in zip(a.D, b.D)):
+        return "D"
+    return None
+
+
+def same_plan(a, b) -> bool:
+    return len(a.f) == len(b.f) and np.array_equal(np.asarray(a.f), np.asarray(b.f)) and np.array_equal(np.asarray(a.L), np.asarray(b.L)) \
+        and all(np.array_equal(np.asarray(p), np.asarray(q)) for p, q in zip(a.D, b.D))
+
+
+def sweep_spec(g: np.random.Generator, k: int, rot: List[int], order: int, single: bool, force: str = "") -> Dict[str, Any]:
+    """the k-th option set of a run (k = round * 4 + order index); `rot` = the run's rotations (drawn from the seed), so that over the seeds every
+    value of a factor meets every value of the others.  `force`: "tile" = olap exactly 0.0 and a segment length that divides N (the segments tile the
+    record: Welch plan with L = N/m, single bin with L = N/2, K = 2); "one" = every / one bin averaged over a single segment (L = N)"""
+    q = 1 if single else 0
+    N = int(SW_N[(k + rot[0] + 3 * q) % len(SW_N)])
+    if force == "tile":
+        N = int([240, 360, 420, 180][(k + rot[0]) % 4])
+    fs = float([1.0, 2.0, 1000.0, round(float(g.uniform(0.1, 1e4)), 3)][(k // 2 + rot[1] + q) % 4])
+    win, psll = SW_WINS[(k + k // 5 + rot[2] + 2 * q) % len(SW_WINS)]
+    form = "zero" if force == "tile" else SW_OLAPS[(k + k // 4 + rot[3] + q) % 4]
+    olap: Any = {"default": "default", "float": float(g.choice([0.3, 0.5, 0.66, round(float(g.uniform(0.05, 0.9)), 4)])), "zero": 0.0,
+                 "high": float(g.choice([0.97, 0.98, 0.99]))}[form]
+    if form == "high" and not force:        # (1 - olap) * L < 1 for L < 33..100: hop of one sample / thousands of requested averages; short record keeps K * L small
+        N = int([96, 121, 150][(k + rot[0]) % 3])
+    kind = SW_KINDS[(k + rot[5] + 2 * q) % len(SW_KINDS)]
+    opts: Dict[str, Any] = {"order": int(order), "olap": olap, "win": win}
+    if psll is not None:
+        opts["psll"] = psll
+    spec: Dict[str, Any] = {"rec": {"rs": int(g.integers(0, 2 ** 31 - 1)), "N": N, "kind": kind}, "fs": fs, "layout": SW_LAYOUTS[(k // 2 + k + rot[4] + q) % 4],
+                            "olap_form": form}
+    if single:
+        L = int([N, N // 2, (N // 3) | 1, 2 * (N // 10), int(g.integers(4, N + 1))][(k + k // 4 + rot[7]) % 5])
+        L = N // 2 if force == "tile" else (N if force == "one" else L)
+        # half of the frequencies on a Fourier bin of the segment, half between bins
+        freq = fs * int(g.integers(1, max(2, L // 2))) / L if (k + rot[6]) % 2 else fs * float(g.uniform(0.02, 0.48))
+        spec.update(entry=SW_BIN_ENTRIES[(k + k // 4 + rot[6]) % 4], single={"freq": float(freq), "L": L, "fres": fs / L})
+        opts["scheduler"] = "-"
+    else:
+        sched = SW_SCHEDS[(k + rot[8]) % len(SW_SCHEDS)]
+        if force == "tile":
+            sched = "welch:%d" % (N // [2, 3, 4, 5][(k + rot[9]) % 4])
+        elif force == "one":
+            sched = "revisit:%d:%d" % ([(N // 6) | 1, N // 4][(k + rot[9]) % 2], N) if k % 2 else "welch:%d" % N
+        elif sched == "welch":      # L0 = N: K = 1 in every bin; N // 2 + 1: one or two segments; divisors of N: the record is tiled exactly when olap = 0
+            sched = "welch:%d" % [N, N // 2 + 1, N // 3, (N // 5) | 1, N // 4, N // 2][(k // 2 + rot[9]) % 6]
+        elif sched == "revisit":
+            sched = "revisit:%d:%d" % ([(N // 6) | 1, N // 4, 2 * (N // 14)][(k + rot[9]) % 3], [N, N // 2, (N // 3) | 1][(k // 3 + rot[9]) % 3])
+        opts.update(scheduler=sched, Jdes=int(g.integers(5, 13)), Kdes=int(g.choice([1, 2, 5, 20])), bmin=float(g.choice([1.0, 1.0, 2.0, 3.5])),
+                    Lmin=int(g.choice([1, 1, 8])) if sched in _an.SCHEDS else 1)
+        spec.update(entry=SW_SPEC_ENTRIES[(k + k // 3 + rot[6]) % 3], single=None)
+    spec["opts"] = opts
+    return spec
+
+
+def bit_check(P: C.Part, name: str, a, b, sig, rp, what: str) -> None:
+    P.cases += 1
+    fld = raw_diff(a, b)
+    if fld is not None:
+        add_violation(P, f"{what}: field {fld} is not bit-identical ({name}); same input values, same options, same code path",
+                      dict(sig, check="repeat-" + name), dict(rp, check="repeat-" + name))
+
+
+def check_repeat(P: C.Part, spec: Dict[str, Any], be: str, first, x: np.ndarray, y: np.ndarray) -> None:
+    """(iii): the pair and one channel alone, analysed again — on the same analyzer, after a different entry point on that analyzer, by a new analyzer
+    on the SAME input object, by a second module-level call on the same object; the caller's object must hold the same bytes afterwards"""
+    from speckit.analysis import SpectrumAnalyzer
+    o = dict(spec["opts"], backend=be)
+    fs, entry, single = float(spec["fs"]), spec["entry"], spec.get("single")
+    kw = sw_kwargs(o, single)
+    rp = {"sweep": dict(spec, opts=o), "repeat": True}
+    sig = {"kind": spec["rec"]["kind"], "order": int(o["order"]), "where": entry, "backend": be}
+    what = f"{entry} backend={be} order={o['order']} sched={o.get('scheduler')} olap={o['olap']!r} win={o['win']} layout={spec['layout']}"
+    for chan, data, ref in (("pair", lay(x, y, spec["layout"]), first), ("x alone", lay(x, None, spec["layout"]), None)):
+        keep = snapshot(data)
+        try:
+            if entry.startswith("an."):
+                with warnings.catch_warnings():
+                    warnings.simplefilter("ignore")
+                    an = SpectrumAnalyzer(data, fs, **kw)
+                r1 = sw_call(entry, data, fs, kw, single, an)
+                r2 = sw_call(entry, data, fs, kw, single, an)
+                # another entry point of the same analyzer in between (a single bin after a spectrum, a spectrum after a single bin)
+                if single:
+                    an.compute_single_bin(float(single["freq"]) * 0.5, L=max(2, int(single["L"]) // 2))
+                else:
+                    an.compute_single_bin(0.21 * fs, L=max(2, len(x) // 3))
+                r3 = sw_call(entry, data, fs, kw, single, an)
+                r4 = sw_call(entry, data, fs, kw, single, None)          # new analyzer, same input object
+                runs = [("second call on the same analyzer", r2), ("call after another entry point on the same analyzer", r3),
+                        ("new analyzer on the same input object", r4)]
+            else:
+                r1 = sw_call(entry, data, fs, kw, single)
+                runs = [("second call on the same input object", sw_call(entry, data, fs, kw, single))]
+        except Exception as ex:
+            add_violation(P, f"{what} ({chan}): analysed once, but a repeated analysis raises {ex!r}", dict(sig, check="repeat-raises"), dict(rp, check="repeat-raises"))
+            continue
+        P.hit("repeat:" + ("analyzer" if entry.startswith("an.") else "module"))
+        for nm, rr in runs:
+            bit_check(P, nm, r1, rr, sig, rp, f"{what} ({chan})")
+        if ref is not None:
+            bit_check(P, "fresh copy of the data", ref, r1, sig, rp, f"{what} ({chan})")
+        P.cases += 1
+        if snapshot(data) != keep:
+            add_violation(P, f"{what} ({chan}): the caller's input object was modified by the analysis", dict(sig, check="input-untouched"),
+                          dict(rp, check="input-untouched"))
+
+
+def check_backends(P: C.Part, res: Dict[str, Any], x, y, fs: float, o: Dict[str, Any], wc: WinCache, spec: Dict[str, Any]) -> None:
+    """(iv): the backends on identical options.  Each kernel is within (tXX, tYY, tXY) of the exact segment means (C01's forward model, _an.bin_tol),
+    so two of them differ by at most twice that; coherence as in the swap predicate (first-order propagation 2*rr, allowance 4*rr, bins whose power
+    sits at the rounding floor are `unstable`)."""
+    names = [b for b in SW_BACKENDS if b in res]
+    if len(names) < 2:
+        return
+    a = res[names[0]]
+    B = budgets(a, x, y, fs, o, wc)
+    epsK = 32.0 * (B["K"] + 4.0) * U
+    with warnings.catch_warnings(), np.errstate(all="ignore"):
+        warnings.simplefilter("ignore")
+        A = {n: np.asarray(getattr(a, n)) for n in ("Gxx", "Gyy", "Gxy", "coh")}
+    XX, YY = np.asarray(a.XX), np.asarray(a.YY)
+    for nb in names[1:]:
+        b = res[nb]
+        sig = {"kind": spec["rec"]["kind"], "order": int(o["order"]), "where": spec["entry"], "backend": f"{names[0]}-vs-{nb}"}
+        rp = {"sweep": dict(spec, opts=dict(o)), "backends": [names[0], nb]}
+        lab = f"{spec['entry']} order={o['order']} sched={o.get('scheduler')} win={o['win']} olap={o['olap']!r}: backends {names[0]} and {nb}"
+        P.cases += len(a.f)
+        if not same_plan(a, b):
+            add_violation(P, f"{lab} use different plans (f/L/D differ)", dict(sig, check="backend-plan"), dict(rp, check="backend-plan"))
+            continue
+        with warnings.catch_warnings(), np.errstate(all="ignore"):
+            warnings.simplefilter("ignore")
+            Bv = {n: np.asarray(getattr(b, n)) for n in ("Gxx", "Gyy", "Gxy", "coh")}
+        for j in range(len(a.f)):
+            c = B["c"][j]
+            for n, t in (("Gxx", "tXX"), ("Gyy", "tYY"), ("Gxy", "tXY")):
+                dv = abs(Bv[n][j] - A[n][j])
+                if not within("backends " + n, dv, 2 * c * B[t][j]):
+                    add_violation(P, f"{lab} disagree in bin {j} (f={float(a.f[j]):.6g}, L={int(a.L[j])}, K={int(B['K'][j])}): {n} = {A[n][j]!r} vs "
+                                     f"{Bv[n][j]!r} (tol {2 * c * B[t][j]:.3g})", dict(sig, check="backend-" + n), dict(rp, check="backend-" + n, bin=int(j)))
+            if XX[j] > 0 and YY[j] > 0:
+                rr = B["tXX"][j] / XX[j] + B["tYY"][j] / YY[j] + 2 * B["tXY"][j] / math.sqrt(XX[j] * YY[j])
+                if rr > 0.05:
+                    P.unstable += 1
+                elif not within("backends coh", abs(Bv["coh"][j] - A["coh"][j]), 4 * rr + epsK[j] + 1e-12 * A["coh"][j]):
+                    add_violation(P, f"{lab} disagree in bin {j}: coherence {A['coh'][j]!r} vs {Bv['coh'][j]!r} (tol {4 * rr + epsK[j]:.3g})",
+                                  dict(sig, check="backend-coh"), dict(rp, check="backend-coh", bin=int(j)))
+
+
+def sweep_case(P: C.Part, spec: Dict[str, Any], backends: List[str], repeat_on: Optional[str] = None, tag: str = "sweep") -> None:
+    """one option set on each of `backends`: [x,y], [y,x], x, y through the entry point -> check_results; then (iv) and, on `repeat_on`, (iii)"""
+    x, y = trend_pair(spec["rec"])
+    fs, layout, entry, single, kind = float(spec["fs"]), spec["layout"], spec["entry"], spec.get("single"), spec["rec"]["kind"]
+    other = {"2xN": "Nx2", "Nx2": "2xN", "list": "view", "view": "list"}[layout]
+    o0 = spec["opts"]
+    wc = WinCache({"win": WIN_FUNCS.get(o0["win"], o0["win"]), "psll": o0.get("psll")})
+    res: Dict[str, Any] = {}
+    raised: Dict[str, str] = {}
+    for be in backends:
+        o = dict(o0, backend=be)
+        kw = sw_kwargs(o, single)
+        rp = {"sweep": dict(spec, opts=o)}
+        try:
+            r = sw_call(entry, lay(x, y, layout), fs, kw, single)
+        except Exception as ex:
+            raised[be] = repr(ex)
+            continue
+        try:
+            rs, rx, ry = (sw_call(entry, lay(y, x, other), fs, kw, single), sw_call(entry, lay(x, None, layout), fs, kw, single),
+                          sw_call(entry, lay(y, None, other), fs, kw, single))
+        except Exception as ex:
+            add_violation(P, f"{entry} {kind} backend={be} order={o['order']}: [x,y] is analysed but the swapped pair or a single channel raises {ex!r}",
+                          {"kind": kind, "check": "raises", "where": entry, "backend": be}, dict(rp, check="raises"))
+            continue
+        res[be] = r
+        check_results(P, r, rs, rx, ry, x, y, fs, o, kind, entry, rp, wc)
+        # measured coverage of the dispatch row: segment counts and segment-length parities that went through it
+        row = f"{tag} {be}/order={o['order']}/{'bin' if single else 'spectrum'}"
+        P.hit(row)
+        if tag != "sweep":
+            continue
+        Ks = np.array([len(d) for d in r.D])
+        for nm, hitit in (("K=1", bool(np.any(Ks == 1))), ("K=2", bool(np.any(Ks == 2))), ("K>=3", bool(np.any(Ks >= 3))),
+                          ("odd L", bool(np.any(np.asarray(r.L) % 2 == 1))), ("even L", bool(np.any(np.asarray(r.L) % 2 == 0)))):
+            if hitit:
+                P.hit(f"{tag} {be}/order={o['order']}: {nm}")
+        P.hit(f"{tag} entry {entry}")
+        P.hit(f"{tag} scheduler {str(o0.get('scheduler')).split(':')[0]}")
+        P.hit(f"{tag} olap {spec.get('olap_form')}")
+        P.hit(f"{tag} window {o0['win']}")
+        P.hit(f"{tag} layout {layout}")
+    if raised and res:        # the option set is valid (a backend analysed it): another backend must not refuse it
+        be = sorted(raised)[0]
+        add_violation(P, f"{entry} {kind} order={o0['order']} sched={o0.get('scheduler')}: backend {be} raises {raised[be]} but {sorted(res)[0]} analyses the same case",
+                      {"kind": kind, "check": "backend-raises", "where": entry, "backend": be}, {"sweep": dict(spec, opts=dict(o0, backend=be)), "check": "backend-raises"})
+    elif raised:
+        P.hit(f"{tag} rejected:" + raised[sorted(raised)[0]].split("(")[0])
+        return
+    check_backends(P, res, x, y, fs, dict(o0, backend="/".join(res)), wc, spec)
+    for be in (list(res) if repeat_on == "all" else [repeat_on]):
+        if be in res:
+            check_repeat(P, spec, be, res[be], x, y)
+
+
+def option_sweep(P: C.Part, ctx, g: np.random.Generator, rounds: int) -> None:
+    rot = [int(v) for v in g.integers(0, 60, size=10)]
+    reserve = 600 if ctx.thorough else 25
+    k = 0
+    for rnd in range(rounds):
+        for oi, order in enumerate(ORDERS):
+            for single in (False, True):
+                if len(P.violations) >= MAX_VIOL or ctx.time_left() < reserve:
+                    P.notes.append("option sweep cut short (violation cap / time budget)")
+                    return
+                # rounds 0 and 1 pin what must not be left to the cycling: exact tilings at olap = 0.0 (K = 2 in the single bin) and K = 1 bins
+                spec = sweep_spec(g, k, rot, order, single, force={0: "tile", 1: "one"}.get(rnd, ""))
+                sweep_case(P, spec, SW_BACKENDS, repeat_on="all")       # (iii) on every dispatch row
+                if k < 1 and not single:
+                    P.sample({"op": "oracle-sweep", "spec": spec})
+            k += 1
+    rows = [f"sweep {b}/order={o}/{m}" for b in SW_BACKENDS for o in ORDERS for m in ("spectrum", "bin")]
+    cover = {nm: sum(1 for b in SW_BACKENDS for o in ORDERS if P.histogram.get(f"sweep {b}/order={o}: {nm}", 0) > 0) for nm in ("K=1", "K=2", "K>=3", "odd L", "even L")}
+    P.notes.append(f"option sweep: {rounds} rounds; dispatch rows (backend x order x spectrum|bin) visited {sum(1 for r in rows if P.histogram.get(r, 0) > 0)}/24, "
+                   f"min visits {min(P.histogram.get(r, 0) for r in rows)}; (backend, order) pairs out of 12 that saw " + ", ".join(f"{k_}: {v}" for k_, v in cover.items()))
+
+
+# ---------------------------------------------------------------- Family S: sizes around the constants of the CURRENT source and well beyond the generators
+def size_stream(P: C.Part, ctx, g: np.random.Generator, full: bool) -> None:
+    """segment counts K, record lengths N and grid sizes nf at c-1, c, c+1, c+17, 2c+3 for every integer constant c mined from core.py / analysis.py
+    (chunk sizes of the NumPy kernels, the CUDA heuristic, defaults), plus records of 70 001 (all 12 dispatch pairs), 65 537 / 131 075 and 1 100 003
+    samples whose segments sit at the start, around 2^16 / 2^20 / every mined constant, and in the LAST block; same predicates (alone vs pair on one
+    dispatch row, swap, bounds, identities) and the backend comparison.  `full` (thorough tier / an obligation broke): every size on every order."""
+    consts = [int(c) for c in C.mined_sizes(SIZE_FILES)]
+    rot = int(g.integers(0, 12))
+    reserve = 600 if ctx.thorough else 25
+    pairs = [(b, o) for o in ORDERS for b in SW_BACKENDS]
+    idx = 0
+
+    def run(spec: Dict[str, Any], backends: List[str], tag: str) -> bool:
+        if len(P.violations) >= MAX_VIOL or ctx.time_left() < reserve:
+            return False
+        sweep_case(P, spec, backends, repeat_on=None, tag=tag)
+        return True
+
+    def base(N: int, order: int, kind: str = "tr-partial") -> Dict[str, Any]:
+        win, psll = SW_WINS[(idx + rot) % 2]           # kaiser(60) / hann: cheap to rebuild at any length
+        o: Dict[str, Any] = {"order": int(order), "olap": [0.5, 0.0, "default"][(idx + rot) % 3], "win": win, "Jdes": 6, "Kdes": 2, "bmin": 1.0, "Lmin": 1}
+        if psll is not None:
+            o["psll"] = psll
+        return {"rec": {"rs": int(g.integers(0, 2 ** 31 - 1)), "N": int(N), "kind": kind, "amp": 3.0}, "fs": float([1.0, 1000.0, 2.0][(idx + rot) % 3]),
+                "layout": SW_LAYOUTS[(idx + rot) % 2], "olap_form": "size", "entry": "an.compute", "single": None, "opts": o}
+
+    # (a) segment counts around every constant: one bin averaged over exactly K segments spread over the whole record (ascending starts, so that a
+    #     block of segments processed with the wrong offset reads other samples), second bin K = 2; numpy AND numba (the chunking is per backend)
+    kcap = 140000 if full else 70000
+    for c in consts:
+        for K in (c - 1, c, c + 1, c + 17, 2 * c + 3):
+            if K < 1 or K > kcap:
+                P.hit("size K skipped (cap)")
+                continue
+            for order in (ORDERS if full else [ORDERS[(idx + rot) % 4]]):
+                N = 1009 if K < 2000 else 4001
+                spec = base(N, order)
+                spec["opts"].update(scheduler=f"kseg:{[7, 12][idx % 2]}:{K}:{[12, 9][idx % 2]}")
+                if not run(spec, ["numpy", "numba"] + (["auto"] if c <= 1000 or full else []), "sizeK"):
+                    return
+                P.hit(f"size K around {c}")
+                idx += 1
+    # (b) record lengths: around every constant (library scheduler on the short ones, marked plan beyond), one dispatch pair each, rotating
+    marks_all = sorted(set(consts) | {1 << 16, 1 << 20})
+    sizesN = sorted({n for c in consts for n in (c - 1, c, c + 1, c + 17, 2 * c + 3) if n >= 16} | {65537, 131075})
+    for N in sizesN:
+        be, order = pairs[(idx + rot) % 12]
+        spec = base(N, order)
+        marks = [m for m in marks_all if 16 < m < N]
+        if idx % 3 == 0 and N <= 4000:
+            spec["opts"].update(scheduler=_an.SCHEDS[(idx // 3) % 4])
+        elif idx % 3 == 1:
+            L = min(N, max(2, ([N // 3, 4097, 255] if N > 9000 else [N // 3, N // 2, N])[(idx // 3) % 3] | ((idx // 3) % 2)))
+            spec.update(entry=SW_BIN_ENTRIES[idx % 4], single={"freq": spec["fs"] * 0.173, "L": int(L), "fres": spec["fs"] / L})
+            spec["opts"]["scheduler"] = "-"
+        else:
+            spec["opts"].update(scheduler="marks:%s:%s" % (",".join(str(v) for v in (N, min(N, 4097), min(N // 2, 1024), 255, 64)), ",".join(str(m) for m in marks[-4:])))
+        if not run(spec, [be] if not full else SW_BACKENDS, "sizeN"):
+            return
+        P.hit("size N around a mined constant" if N < 65537 else "size N > 2^16")
+        idx += 1
+    # (c) well beyond every generator: 70 001 samples on all 12 dispatch pairs (marked plan / single bin alternating)
+    for j, (be, order) in enumerate(pairs):
+        N = 70001
+        spec = base(N, order, "tr-scaled" if j % 6 == 5 else "tr-partial")
+        if j % 2:
+            L = [4097, 8192, 1023, 70001][(j // 2 + rot) % 4]
+            spec.update(entry=SW_BIN_ENTRIES[(j // 2) % 4], single={"freq": spec["fs"] * 0.2173, "L": L, "fres": spec["fs"] / L})
+            spec["opts"]["scheduler"] = "-"
+        else:
+            spec["opts"].update(scheduler="marks:70001,8193,1024,255:65536,32768,16384")
+        if not run(spec, [be], "size70001"):
+            return
+        idx += 1
+    # (d) grid size: more bins than any constant in the source (Welch grid), one dispatch pair
+    be, order = pairs[(idx + rot) % 12]
+    nfs = [2 * max([c for c in consts if c <= 1000] or [500]) + 3] + ([c + 1 for c in consts if 100 <= c <= 1000] if full else [])
+    for nf in nfs:
+        spec = base(600, order)
+        spec["opts"].update(scheduler=f"welch:64:{nf}")
+        if not run(spec, [be], "sizeNF"):
+            return
+        P.hit("size nf beyond the constants")
+        idx += 1
+    # (e) 1 100 003 samples (> 2^20): one dispatch pair per run (all orders on numba and numpy when `full`)
+    for j, (be, order) in enumerate(pairs if full else [pairs[(idx + rot) % 12]]):
+        spec = base(1100003, order)
+        spec["opts"].update(win="hann", scheduler="marks:1048577,65537,4096,255:1048576,65536")
+        spec["opts"].pop("psll", None)
+        if not run(spec, [be], "size1100003"):
+            return
+        P.hit("size N > 2^20")
+        idx += 1
+    P.notes.append(f"size stream: constants mined from the current source {consts}; {idx} size cases"
+                   f" ({'every order' if full else 'one order / dispatch pair per size, rotating with the seed'})")
+
+
 # ---------------------------------------------------------------- correspondence / oracle / replay
 def correspondence(ctx) -> C.Part:
     """generated Lean attribute table (Float, driver) vs the real SpectrumResult.__getattr__ for the attributes C09 talks about"""
@@ -513,6 +1071,11 @@ def correspondence(ctx) -> C.Part:
 
 
 def oracle(ctx, intensive: bool = False, hints: List[Dict[str, Any]] = ()) -> C.Part:
+    with blas_threads(1):
+        return oracle_body(ctx, intensive, hints)
+
+
+def oracle_body(ctx, intensive: bool = False, hints: List[Dict[str, Any]] = ()) -> C.Part:
     P = C.Part()
     quiet()
     MARGIN.clear()
@@ -529,6 +1092,10 @@ def oracle(ctx, intensive: bool = False, hints: List[Dict[str, Any]] = ()) -> C.
         check_fake(P, [dict(b, XY=complex(b["XY"])) for b in hb[:50]], float([h for h in hints if "fs" in h][0]["fs"]))
     # band edges (DC / below the first bin / Nyquist) on every run, from a child generator so that the main stream below is undisturbed
     edge_stream(P, ctx, rng.spawn(1)[0], ctx.scale(16, 64) * (4 if intensive else 1))
+    # Family O (every dispatch row x cycled entry points / schedulers / overlap forms / windows / layouts, repeats, backend comparison) and
+    # Family S (sizes around the constants of the current source and well beyond the generators), each from its own child generator
+    option_sweep(P, ctx, rng.spawn(1)[0], ctx.scale(6, 24) * (4 if intensive else 1))
+    size_stream(P, ctx, rng.spawn(1)[0], bool(intensive or ctx.thorough))
     n = ctx.scale(196, 2100) * (4 if intensive else 1)
     sizes = [16, 64, 257, 1000, 2048] if not ctx.thorough else [8, 16, 64, 100, 257, 1000, 2048, 4000, 10007]
     for i in range(n):
@@ -558,12 +1125,21 @@ def oracle(ctx, intensive: bool = False, hints: List[Dict[str, Any]] = ()) -> C.
 
 
 def replay(ctx, data) -> C.Part:
+    with blas_threads(1):
+        return replay_body(ctx, data)
+
+
+def replay_body(ctx, data) -> C.Part:
     P = C.Part()
     quiet()
     for v in data.get("violations", []):
         rp = v["replay"]
         if "fake" in rp:
             check_fake(P, [dict(b, XY=complex(b["XY"][0], b["XY"][1])) for b in rp["fake"]], float(rp["fs"]), rp.get("f"))
+        elif "sweep" in rp:
+            spec = rp["sweep"]
+            bes = [b for b in (rp.get("backends") or str(spec["opts"].get("backend", "auto")).split("/")) if b in SW_BACKENDS] or ["auto"]
+            sweep_case(P, spec, bes, repeat_on=bes[0] if rp.get("repeat") else None, tag="replay")
         else:
             run_case(P, np.array(rp["x"], dtype=float), np.array(rp["y"], dtype=float), float(rp["fs"]), rp["opts"], rp["layout"], rp["entry"],
                      rp["single"], rp["kind"])
